@@ -2474,3 +2474,109 @@ def shared_default_object_mutated(repo, col, shorts):
                                 "later caller that does not pass its own"
                                 % (b.value.id, obj), node=st)
     return n
+
+
+# ---------------------------------------------------------------------
+# one-shot iterators that are kept and used again  (common rules)
+# ---------------------------------------------------------------------
+def _is_generator_fn(f):
+    return any(isinstance(x, (ast.Yield, ast.YieldFrom))
+               for x in walk_local(f.node))
+
+
+def _memo_decorated(f):
+    for d in f.node.decorator_list:
+        t = norm(d.func if isinstance(d, ast.Call) else d)
+        if t.split(".")[-1] in ("lru_cache", "cache", "cached_property"):
+            return t
+    return None
+
+
+def memoised_one_shot(repo, col, shorts):
+    """(a) a memoised function that returns a generator: the second caller
+    gets the exhausted iterator; (b) a generator object bound in a factory
+    and iterated by the closure it returns: only the first call of the
+    closure sees elements; (c) a memoised method of a class that compares by
+    a subset of its fields: the memo is shared by objects that differ in the
+    fields the method reads."""
+    rule = "E-ITER.kept-generator"
+    n = 0
+    for ms in shorts:
+        try:
+            m = repo.module(ms)
+        except Exception:
+            continue
+        for fn in m.functions.values():
+            deco = _memo_decorated(fn)
+            if deco:
+                gen_ret = _is_generator_fn(fn) or any(
+                    isinstance(r, ast.Return) and
+                    isinstance(r.value, ast.GeneratorExp)
+                    for r in stmts_of(fn.node)) or any(
+                    isinstance(r, ast.Return) and
+                    isinstance(r.value, ast.Call) and
+                    call_name(r.value) in ("iter", "map", "filter", "zip",
+                                           "reversed", "enumerate")
+                    for r in stmts_of(fn.node))
+                n += 1
+                col.add(rule, fn, "@%s %s" % (deco, fn.qualname),
+                        not gen_ret, "" if not gen_ret else
+                        "%s is memoised and returns a one-shot iterator: "
+                        "every caller after the first receives the same, "
+                        "already exhausted object" % fn.qualname,
+                        node=fn.node)
+                # (c) memoised method of a value-like class
+                if fn.cls is not None and fn.params[:1] == ["self"] and \
+                        "cached_property" not in deco:
+                    ci = fn.cls
+                    partial_eq = "__hash__" in ci.methods or \
+                        "__eq__" in ci.methods or any(
+                            "compare=False" in norm(st)
+                            for st in ci.node.body
+                            if isinstance(st, (ast.AnnAssign, ast.Assign)))
+                    if partial_eq:
+                        n += 1
+                        col.add(rule.replace("kept-generator", "method-memo"),
+                                fn, "@%s %s" % (deco, fn.qualname), False,
+                                "%s is memoised on `self`, and %s compares / "
+                                "hashes by part of its state: objects that "
+                                "differ elsewhere share one memo entry"
+                                % (fn.qualname, ci.name), node=fn.node)
+            # (b) generator bound outside, iterated inside a nested def
+            defs = local_defs(fn.node)
+            nested = [g for g in m.functions.values() if g.parent is fn]
+            if not nested:
+                continue
+            for name, ds in defs.items():
+                vs = [d.value for d in ds if d.value is not None]
+                if len(vs) != 1 or not isinstance(vs[0], (ast.Call,
+                                                          ast.GeneratorExp)):
+                    continue
+                one_shot = isinstance(vs[0], ast.GeneratorExp)
+                if isinstance(vs[0], ast.Call):
+                    h = resolve_local_call(fn, vs[0])
+                    if h is None and isinstance(vs[0].func, ast.Attribute):
+                        owners = [cc.methods[vs[0].func.attr]
+                                  for cc in repo.all_classes()
+                                  if vs[0].func.attr in cc.methods]
+                        h = owners[0] if len(owners) == 1 else None
+                    one_shot = h is not None and _is_generator_fn(h)
+                if not one_shot:
+                    continue
+                for g in nested:
+                    uses = [x for x in walk_local(g.node)
+                            if isinstance(x, (ast.For, ast.comprehension))
+                            and isinstance(x.iter, ast.Name)
+                            and x.iter.id == name]
+                    if uses and name not in g.params and \
+                            name not in local_defs(g.node):
+                        n += 1
+                        col.add(rule, fn, "%s = %s" % (name, norm(vs[0])[:40]),
+                                False, "`%s` is a generator created once in "
+                                "%s and iterated by %s, which is called many "
+                                "times: from the second call on there is "
+                                "nothing left to iterate over"
+                                % (name, fn.qualname, g.qualname),
+                                node=uses[0] if isinstance(uses[0], ast.For)
+                                else None)
+    return n
